@@ -663,9 +663,8 @@ func (fr *frame) jsonUnmarshal(data value, v value) value {
 	if b := blobOf(data); b != nil {
 		n = b
 	} else {
-		if hasSym(data) {
-			panic(pathAbort{"unsupported", "json.Unmarshal of symbolic bytes"})
-		}
+		// symbolic text: fork over the selector variables it depends on
+		data = fr.concretizeData(data)
 		var err error
 		raw := bytesOf(data)
 		n, err = parseJSON(raw)
